@@ -57,14 +57,14 @@ func patchRand(goroot string) ([]byte, error) {
 		}
 		s = strings.Replace(s, sig, sig+" "+body, 1)
 	}
-	rep("func Int() int {", `if VerifHook != nil { _, i := VerifHook("rand.Int"); return int(i) };`)
-	rep("func Int63n(n int64) int64 {", `if VerifHook != nil { _, i := VerifHook("rand.Int63n"); return i };`)
-	rep("func Int31n(n int32) int32 {", `if VerifHook != nil { _, i := VerifHook("rand.Int31n"); return int32(i) };`)
-	rep("func Intn(n int) int {", `if VerifHook != nil { _, i := VerifHook("rand.Intn"); return int(i) };`)
-	rep("func Float64() float64 {", `if VerifHook != nil { f, _ := VerifHook("rand.Float64"); return f };`)
-	rep("func Float32() float32 {", `if VerifHook != nil { f, _ := VerifHook("rand.Float32"); return float32(f) };`)
-	rep("func NormFloat64() float64 {", `if VerifHook != nil { f, _ := VerifHook("rand.NormFloat64"); return f };`)
-	s += "\n// VerifHook scripts the top-level functions during counter-example replay (overlay only).\nvar VerifHook func(kind string) (float64, int64)\n"
+	rep("func Int() int {", `if VerifHook != nil && !VerifBypass { _, i := VerifHook("rand.Int"); return int(i) };`)
+	rep("func Int63n(n int64) int64 {", `if VerifHook != nil && !VerifBypass { _, i := VerifHook("rand.Int63n"); return i };`)
+	rep("func Int31n(n int32) int32 {", `if VerifHook != nil && !VerifBypass { _, i := VerifHook("rand.Int31n"); return int32(i) };`)
+	rep("func Intn(n int) int {", `if VerifHook != nil && !VerifBypass { _, i := VerifHook("rand.Intn"); return int(i) };`)
+	rep("func Float64() float64 {", `if VerifHook != nil && !VerifBypass { f, _ := VerifHook("rand.Float64"); return f };`)
+	rep("func Float32() float32 {", `if VerifHook != nil && !VerifBypass { f, _ := VerifHook("rand.Float32"); return float32(f) };`)
+	rep("func NormFloat64() float64 {", `if VerifHook != nil && !VerifBypass { f, _ := VerifHook("rand.NormFloat64"); return f };`)
+	s += "\n// VerifHook scripts the top-level functions during counter-example replay (overlay only).\nvar VerifHook func(kind string) (float64, int64)\n\n// VerifBypass: the real generator answers (sections that run real goroutines).\nvar VerifBypass bool\n"
 	return []byte(s), nil
 }
 
@@ -215,6 +215,9 @@ func RunReplays(repo, root string, jobs []ReplayJob, race bool, timeout time.Dur
 		cmd := exec.Command("go", args...)
 		cmd.Dir = repo
 		cmd.Env = append(os.Environ(), "GOFLAGS=-mod=mod", "GOPROXY=off", "GOSUMDB=off", "GOTOOLCHAIN=local", "VERIF_REPLAY="+listPath, fmt.Sprintf("GOMAXPROCS=%d", runtime.NumCPU()))
+		if race {
+			cmd.Env = append(cmd.Env, "VERIF_REPLAY_REPEAT=40")
+		}
 		var buf bytes.Buffer
 		cmd.Stdout = &buf
 		cmd.Stderr = &buf
@@ -226,6 +229,9 @@ func RunReplays(repo, root string, jobs []ReplayJob, race bool, timeout time.Dur
 			cmd.Process.Kill()
 			<-done
 			logs.WriteString("replay build/run timed out\n")
+		}
+		if f := os.Getenv("VERIF_REPLAY_LOG"); f != "" {
+			os.WriteFile(f, buf.Bytes(), 0644)
 		}
 		sc := bufio.NewScanner(bytes.NewReader(buf.Bytes()))
 		sc.Buffer(make([]byte, 1<<20), 1<<26)
